@@ -45,25 +45,26 @@ Proof.
 Qed.
 
 Section Budget.
+  Variable q : quirks.
   Variable g : list (bytes * dm).
 
   Definition budget_form (f : nat) : Prop :=
     forall nb lb seen past ls P n s,
-      cwalk no_ctl g f (bst nb lb seen) past ls P n s = cutres nb lb seen (walk g f ls P n s).
+      cwalk q no_ctl g f (bst nb lb seen) past ls P n s = cutres nb lb seen (walk q g f ls P n s).
 
   Lemma step_budget f (IH : budget_form f) ls P n s nb lb seen past k :
-    cexplore_step no_ctl g (cwalk no_ctl g f) ls P n s (bst nb lb seen) past k
-    = cutres nb lb seen (explore_step g (walk g f) ls P n s k).
+    cexplore_step q no_ctl g (cwalk q no_ctl g f) ls P n s (bst nb lb seen) past k
+    = cutres nb lb seen (explore_step q g (walk q g f) ls P n s k).
   Proof.
     unfold cexplore_step, explore_step.
-    destruct (explore s n (fst k)) as [[s'|]| |]; try reflexivity.
+    destruct (explore q s n (fst k)) as [[s'|]| |]; try reflexivity.
     destruct (snd k); try apply IH.
     (* a link *)
     cbn [c_once no_ctl andb c_skip mem_bytes].
     unfold check_link, bst; cbn [w_budget w_seen].
     destruct (assoc c g) as [b|] eqn:Eg.
     - specialize (IH nb (lb - 1) seen past (c :: ls) (P ++ [fst k]) b s').
-      destruct (walk g f (c :: ls) (P ++ [fst k]) b s') as [e o] eqn:Ew.
+      destruct (walk q g f (c :: ls) (P ++ [fst k]) b s') as [e o] eqn:Ew.
       unfold cutres; cbn [fst snd cut is_visit].
       destruct (lb <=? 0); [reflexivity|].
       fold (bst nb (lb - 1) seen). rewrite IH. unfold cutres; cbn [fst snd].
@@ -73,26 +74,26 @@ Section Budget.
   Qed.
 
   Lemma loop_budget f (IH : budget_form f) ls P n s : forall ks nb lb seen past reached,
-    cloop no_ctl (cexplore_step no_ctl g (cwalk no_ctl g f) ls P n s) P ks (bst nb lb seen) past reached
-    = cutres nb lb seen (seqk (explore_step g (walk g f) ls P n s) ks).
+    cloop no_ctl (cexplore_step q no_ctl g (cwalk q no_ctl g f) ls P n s) P ks (bst nb lb seen) past reached
+    = cutres nb lb seen (seqk (explore_step q g (walk q g f) ls P n s) ks).
   Proof.
     induction ks as [|k r IHr]; intros nb lb seen past reached.
     - reflexivity.
     - cbn [cloop]. unfold start_decide; cbn [c_start no_ctl].
       rewrite step_budget by exact IH. rewrite seqk_cons.
-      destruct (explore_step g (walk g f) ls P n s k) as [e o].
+      destruct (explore_step q g (walk q g f) ls P n s k) as [e o].
       unfold cutres at 1; cbn [fst snd].
       destruct (cut nb lb e) as [[t' [er|]] [x y]] eqn:Ec.
       + (* budget error inside this child *)
         destruct o.
-        * destruct (seqk (explore_step g (walk g f) ls P n s) r) as [e' o'].
+        * destruct (seqk (explore_step q g (walk q g f) ls P n s) r) as [e' o'].
           unfold cutres; cbn [fst snd]. rewrite cut_app, Ec. reflexivity.
         * unfold cutres; cbn [fst snd]. rewrite Ec. reflexivity.
         * unfold cutres; cbn [fst snd]. rewrite Ec. reflexivity.
         * unfold cutres; cbn [fst snd]. rewrite Ec. reflexivity.
       + destruct o.
         * rewrite IHr.
-          destruct (seqk (explore_step g (walk g f) ls P n s) r) as [e' o'].
+          destruct (seqk (explore_step q g (walk q g f) ls P n s) r) as [e' o'].
           unfold cutres; cbn [fst snd]. rewrite cut_app, Ec.
           destruct (cut x y e') as [[t2 [er|]] [x' y']] eqn:Ec2.
           -- rewrite (cut_none _ _ _ _ _ Ec). reflexivity.
@@ -112,10 +113,10 @@ Section Budget.
       destruct (is_container n).
       + fold (bst (nb - 1) lb seen).
         destruct (nb <=? 0) eqn:En.
-        * destruct (seqk (explore_step g (walk g f) ls P n s) (children n s)) as [e o].
+        * destruct (seqk (explore_step q g (walk q g f) ls P n s) (children q n s)) as [e o].
           unfold cutres; cbn [fst snd cut]. rewrite visit_event_is_visit, En. reflexivity.
         * rewrite (loop_budget f IH).
-          destruct (seqk (explore_step g (walk g f) ls P n s) (children n s)) as [e o].
+          destruct (seqk (explore_step q g (walk q g f) ls P n s) (children q n s)) as [e o].
           unfold cutres; cbn [fst snd cut]. rewrite visit_event_is_visit, En.
           destruct (cut (nb - 1) lb e) as [[t' [er|]] [x y]]; reflexivity.
       + unfold cutres; cbn [fst snd cut]. rewrite visit_event_is_visit.
@@ -125,13 +126,13 @@ End Budget.
 
 (* ------------------------------------------------------------------ corollaries on whole runs *)
 
-Theorem budget_run g f nb lb root s :
-  cwalk_adv no_ctl g f (Some (nb, lb)) root s = cut_run nb lb (walk_adv g f root s).
+Theorem budget_run q g f nb lb root s :
+  cwalk_adv q no_ctl g f (Some (nb, lb)) root s = cut_run nb lb (walk_adv q g f root s).
 Proof.
   unfold cwalk_adv, walk_adv, cut_run.
   change {| w_budget := Some (nb, lb); w_seen := [] |} with (bst nb lb []).
   rewrite budget_closed_form. unfold cutres.
-  destruct (walk g f [] [] root s) as [t o]; cbn [fst snd].
+  destruct (walk q g f [] [] root s) as [t o]; cbn [fst snd].
   destruct (cut nb lb t) as [[t' [e|]] [x y]]; reflexivity.
 Qed.
 
@@ -206,24 +207,24 @@ Proof.
     destruct (seqk step r); cbn in *; auto.
 Qed.
 
-Lemma walk_not_budget g f : forall ls P n s, not_budget (snd (walk g f ls P n s)).
+Lemma walk_not_budget q g f : forall ls P n s, not_budget (snd (walk q g f ls P n s)).
 Proof.
   induction f as [|f IH]; intros.
   - cbn. split; discriminate.
   - rewrite walk_S. destruct (is_container n); [|cbn; split; discriminate].
-    pose proof (seqk_not_budget (explore_step g (walk g f) ls P n s) (children n s)) as H.
-    destruct (seqk (explore_step g (walk g f) ls P n s) (children n s)) as [e o]. cbn in *. apply H.
+    pose proof (seqk_not_budget (explore_step q g (walk q g f) ls P n s) (children q n s)) as H.
+    destruct (seqk (explore_step q g (walk q g f) ls P n s) (children q n s)) as [e o]. cbn in *. apply H.
     intros k. unfold explore_step.
-    destruct (explore s n (fst k)) as [[s'|]| |]; cbn; try (split; discriminate).
+    destruct (explore q s n (fst k)) as [[s'|]| |]; cbn; try (split; discriminate).
     destruct (snd k); try apply IH.
     destruct (assoc c g); [|cbn; split; discriminate].
     specialize (IH (c :: ls) (P ++ [fst k]) d s').
-    destruct (walk g f (c :: ls) (P ++ [fst k]) d s'); cbn in *; exact IH.
+    destruct (walk q g f (c :: ls) (P ++ [fst k]) d s'); cbn in *; exact IH.
 Qed.
 
-Theorem node_budget_prefix g f N L root s :
-  let U := walk_adv g f root s in
-  let R := cwalk_adv no_ctl g f (Some (N, L)) root s in
+Theorem node_budget_prefix q g f N L root s :
+  let U := walk_adv q g f root s in
+  let R := cwalk_adv q no_ctl g f (Some (N, L)) root s in
   0 <= N -> Z.of_nat (length (loads (fst U))) <= L ->
   visits (fst R) = firstn (Z.to_nat N) (visits (fst U)) /\
   (exists r, fst U = fst R ++ r) /\
@@ -233,7 +234,7 @@ Proof.
   intros U R H0 HL. subst R. rewrite budget_run. fold U. unfold cut_run.
   destruct (cut_node (fst U) N L H0 HL) as (A & B & C).
   destruct (cut_prefix (fst U) N L) as [r Hr].
-  pose proof (walk_not_budget g f [] [] root s) as [NB _]. fold (walk_adv g f root s) in NB. fold U in NB.
+  pose proof (walk_not_budget q g f [] [] root s) as [NB _]. fold (walk_adv q g f root s) in NB. fold U in NB.
   destruct (cut N L (fst U)) as [[t' [e|]] b] eqn:Ec; cbn [fst snd] in *.
   - split; [exact A|]. split; [exists r; exact Hr|]. split; [split|].
     + intros _. destruct (Z.lt_ge_cases N (Z.of_nat (length (visits (fst U))))) as [Hlt|Hge]; [exact Hlt|].
@@ -247,9 +248,9 @@ Proof.
     + intros _. reflexivity.
 Qed.
 
-Theorem link_budget_prefix g f N L root s :
-  let U := walk_adv g f root s in
-  let R := cwalk_adv no_ctl g f (Some (N, L)) root s in
+Theorem link_budget_prefix q g f N L root s :
+  let U := walk_adv q g f root s in
+  let R := cwalk_adv q no_ctl g f (Some (N, L)) root s in
   0 <= L -> Z.of_nat (length (visits (fst U))) <= N ->
   loads (fst R) = firstn (Z.to_nat L) (loads (fst U)) /\
   (exists r, fst U = fst R ++ r) /\
@@ -259,7 +260,7 @@ Proof.
   intros U R H0 HL. subst R. rewrite budget_run. fold U. unfold cut_run.
   destruct (cut_link (fst U) N L H0 HL) as (A & B & C).
   destruct (cut_prefix (fst U) N L) as [r Hr].
-  pose proof (walk_not_budget g f [] [] root s) as [_ NB]. fold (walk_adv g f root s) in NB. fold U in NB.
+  pose proof (walk_not_budget q g f [] [] root s) as [_ NB]. fold (walk_adv q g f root s) in NB. fold U in NB.
   destruct (cut N L (fst U)) as [[t' [e|]] b] eqn:Ec; cbn [fst snd] in *.
   - split; [exact A|]. split; [exists r; exact Hr|]. split; [split|].
     + intros _. destruct (Z.lt_ge_cases L (Z.of_nat (length (loads (fst U))))) as [Hlt|Hge]; [exact Hlt|].
